@@ -69,6 +69,36 @@ def gen_patterns(rng, tier):
     return res
 
 
+def match_paths():
+    """The file paths the match cases draw from."""
+    return paths_upto(4) + ["a/b/a.b", "b/a/b/a", "a.b/a/b", "a/a/a/a/b"]
+
+
+FILES_POOL = ["a.txt", "b.txt", "src/a.txt", "src/b.md", "src/sub/c.txt", "src/sub/deep/d.txt", "lib/a.txt", "lib/x/b.txt", "a", "b/a"]
+ENTRY_POOL = ["*.txt", "**/*.txt", "src/**", "src/*", "src/{a,b}.*", "{src,lib}/*.txt", "src/[ab].txt", "missing.txt", "a.txt", "src/a.txt",
+              "**", "*/a.txt", "src/**/*.txt", "{a,b}.txt", "lib/?/*.txt", "src/sub/c.txt", "**/a.txt", "[!a].txt", "*", "b/*", "{a,b/a}"]
+
+
+def resolve_entries(pats):
+    """The generated patterns short enough to be mixed into the inputs / excludes of the resolve cases."""
+    return [p for p in pats if len(p) <= 6][:4000]
+
+
+def gen_resolve_case(rng, good):
+    """(files of the package, inputs, exclude_inputs): three quarters of the entries from ENTRY_POOL, the rest from good."""
+    fs_ = sorted(set(FILES_POOL[rng.below(len(FILES_POOL))] for _ in range(rng.below(8))))
+    if "a" in fs_ and any(f.startswith("a/") for f in fs_):
+        fs_.remove("a")
+    pick = lambda: ENTRY_POOL[rng.below(len(ENTRY_POOL))] if rng.below(4) else good[rng.below(len(good))]
+    ins = [pick() for _ in range(rng.below(6))]
+    exs = [pick() for _ in range(rng.below(3))] if rng.below(2) else []
+    return fs_, ins, exs
+
+
+def resolve_line(c):
+    return "resolve\t%s\t%s\t%s" % tuple(",".join(hx(x) for x in l) for l in c)
+
+
 def both(h, drv, lines):
     rc1, impl, err1 = vlib.run_lines(h, lines)
     rc2, mod, err2 = vlib.run_lines(drv, lines)
@@ -87,7 +117,7 @@ def glob_stage(out, tier):
            "isglob_cases": 0, "isglob_true": 0, "resolve_cases": 0, "resolve_uncovered": 0, "resolve_err": 0,
            "oracle_literal": 0, "oracle_isglob": 0, "mismatches": 0}
     pats = gen_patterns(rng, tier)
-    paths = paths_upto(4) + ["a/b/a.b", "b/a/b/a", "a.b/a/b", "a/a/a/a/b"]
+    paths = match_paths()
     per = 6 if tier == "quick" else 14
     # ---- isglob on every pattern
     il = ["isglob\t" + hx(p) for p in pats]
@@ -146,19 +176,11 @@ def glob_stage(out, tier):
                 report(out, "match", p, s, a, b, oracle=None)
     # ---- resolve
     rl, rcases = [], []
-    files_pool = ["a.txt", "b.txt", "src/a.txt", "src/b.md", "src/sub/c.txt", "src/sub/deep/d.txt", "lib/a.txt", "lib/x/b.txt", "a", "b/a"]
-    good = [p for p in pats if len(p) <= 6][:4000]
-    entry_pool = ["*.txt", "**/*.txt", "src/**", "src/*", "src/{a,b}.*", "{src,lib}/*.txt", "src/[ab].txt", "missing.txt", "a.txt", "src/a.txt",
-                  "**", "*/a.txt", "src/**/*.txt", "{a,b}.txt", "lib/?/*.txt", "src/sub/c.txt", "**/a.txt", "[!a].txt", "*", "b/*", "{a,b/a}"]
+    good = resolve_entries(pats)
     for _ in range(400 if tier == "quick" else 6000):
-        fs_ = sorted(set(files_pool[rng.below(len(files_pool))] for _ in range(rng.below(8))))
-        if "a" in fs_ and any(f.startswith("a/") for f in fs_):
-            fs_.remove("a")
-        pick = lambda: entry_pool[rng.below(len(entry_pool))] if rng.below(4) else good[rng.below(len(good))]
-        ins = [pick() for _ in range(rng.below(6))]
-        exs = [pick() for _ in range(rng.below(3))] if rng.below(2) else []
-        rcases.append((fs_, ins, exs))
-        rl.append("resolve\t%s\t%s\t%s" % tuple(",".join(hx(x) for x in l) for l in (fs_, ins, exs)))
+        c = gen_resolve_case(rng, good)
+        rcases.append(c)
+        rl.append(resolve_line(c))
     ri, rm = both(h, drv, rl)
     for c, a, b in zip(rcases, ri, rm):
         cov["resolve_cases"] += 1
